@@ -50,6 +50,10 @@ func (x *Engine) dispatch(fr *Frame, st *State, cc *ssa.CallCommon, args []Val, 
 		if fs := x.db.Funcs[key]; fs != nil {
 			return x.applyContract(fr, st, fs, sig, args, p, key)
 		}
+		if strings.HasPrefix(key, "reflect.") {
+			x.abstracted("reflect method: opaque result, no effect")
+			return resultVal(sig, x.freshResults(st, sig, "rf"))
+		}
 		if strings.HasPrefix(key, repoPfx+"exporter/metric.") {
 			x.abstracted("metric exporter call skipped")
 			return resultVal(sig, x.freshResults(st, sig, "mx"))
@@ -77,6 +81,14 @@ func (x *Engine) dispatch(fr *Frame, st *State, cc *ssa.CallCommon, args []Val, 
 	if callee == nil {
 		// call of a function value of unknown identity
 		if cb := x.callbackSpec(fr, cc); cb != nil {
+			if cb.Pure {
+				fv := x.val(fr, cc.Value)
+				r := x.pureApp(st, cb.Key, sig, Val{T: fv.T, Typ: types.Typ[types.Int]}, args)
+				r.T = x.name("pv", x.sortOf(r.Typ), r.T)
+				x.assume(st, x.wf(r.Typ, r.T, st))
+				x.assumedC[cb.Key] = true
+				return r
+			}
 			return x.applyContract(fr, st, cb, sig, args, p, cb.Key)
 		}
 		x.abstracted("call of unknown function value")
@@ -306,6 +318,11 @@ func (x *Engine) pkgByPath(path string) *ssa.Package {
 }
 
 func (x *Engine) applyContract(fr *Frame, st *State, fs *FuncSpec, sig *types.Signature, args []Val, pos, key string) Val {
+	for _, a := range args {
+		if a.Clo != nil {
+			x.closureSummary(fr, st, a)
+		}
+	}
 	env := x.contractEnv(fs, sig, args)
 	pkg := x.pkgByPath(fs.Pkg)
 	x.usedContracts[key] = true
@@ -789,4 +806,63 @@ func (x *Engine) doAppend(fr *Frame, st *State, args []Val, cc *ssa.CallCommon) 
 	}
 	res := fmt.Sprintf("(ite %s (mk_slice (s_base %s) %s (s_cap %s)) (mk_slice %s %s %s))", fits, s.T, newLen, s.T, r, newLen, newCap)
 	return Val{T: x.name("ap", "Slice", res), Typ: stype}
+}
+
+// closureSummary relates the uninterpreted application of a pure callback to the body of a statically known closure.
+func (x *Engine) closureSummary(fr *Frame, st *State, v Val) {
+	n, ok := v.Typ.(*types.Named)
+	if !ok || n.Obj().Pkg() == nil || v.Clo == nil || v.Clo.Fn.Blocks == nil {
+		return
+	}
+	key := n.Obj().Pkg().Path() + "." + n.Obj().Name() + ".call"
+	fs := x.db.Funcs[key]
+	if fs == nil || !fs.Pure || x.declared["closum:"+v.T+x.get(st, "$epoch")] {
+		return
+	}
+	x.declared["closum:"+v.T+x.get(st, "$epoch")] = true
+	sig := n.Underlying().(*types.Signature)
+	fn := v.Clo.Fn
+	nf := x.newFrame(fn, fr)
+	var formals []string
+	var args []Val
+	for i, p := range fn.Params {
+		nm := fmt.Sprintf("cba%d_%d", i, nf.id)
+		formals = append(formals, fmt.Sprintf("(%s %s)", nm, x.sortOf(p.Type())))
+		a := Val{T: nm, Typ: p.Type()}
+		nf.vals[p] = a
+		args = append(args, a)
+	}
+	for i, fv := range fn.FreeVars {
+		if i < len(v.Clo.Binds) {
+			nf.vals[fv] = v.Clo.Binds[i]
+		}
+	}
+	nf.entry = fr.entryState()
+	saveScript := len(x.script)
+	x.pureMode = true
+	ok = func() (ok bool) {
+		defer func() {
+			if r := recover(); r != nil {
+				if s, isS := r.(string); isS && s == "impure" {
+					ok = false
+					return
+				}
+				panic(r)
+			}
+		}()
+		x.runBody(nf, fn.Blocks[0], st.clone())
+		return true
+	}()
+	x.pureMode = false
+	x.script = x.script[:saveScript]
+	if !ok || len(nf.returns) == 0 || len(nf.panics) > 0 {
+		x.notes = append(x.notes, "closure "+fn.String()+" could not be summarised as a pure expression")
+		return
+	}
+	term := nf.returns[len(nf.returns)-1].res[0].T
+	for k := len(nf.returns) - 2; k >= 0; k-- {
+		term = fmt.Sprintf("(ite %s %s %s)", nf.returns[k].cond, nf.returns[k].res[0].T, term)
+	}
+	app := x.pureApp(st, key, sig, Val{T: v.T, Typ: types.Typ[types.Int]}, args)
+	x.emit(fmt.Sprintf("(assert (forall (%s) (! (= %s %s) :pattern (%s))))", strings.Join(formals, " "), app.T, term, app.T))
 }
